@@ -6,6 +6,7 @@ import (
 	"go/constant"
 	"go/token"
 	"go/types"
+	"regexp"
 	"sort"
 	"strings"
 
@@ -435,16 +436,29 @@ func ruleCRCExtraPreimage(c *Ctx, rule string) {
 		h, seq = hh, cs
 	}
 	want := []struct{ val, cond string }{
-		{"run([]byte((local:msgName + \" \")))", ""},
+		{"run([]byte((local:<name> + \" \")))", ""},
 		{"run([]byte((message.fieldTypeString[F.ftype] + \" \")))", "!F.isExtension"},
 		{"run([]byte((F.name + \" \")))", "!F.isExtension"},
 		{"V(F.arrayLength)", "(F.arrayLength > 0)"},
 	}
 	var probs []string
+	nameDirect, nameLocal := false, ""
+	const msgNameExpr = "message.msgGoToDef((reflect.Type).Name(recv.elemType)[7:])"
 	if len(seq) != len(want) {
 		probs = append(probs, fmt.Sprintf("%d hash writes, expected %d (name; per field: type, name, array length)", len(seq), len(want)))
 	} else {
 		for i, w := range want {
+			if i == 0 {
+				// the message name: either the derivation itself or a local holding it (checked below)
+				if m := reLocalName.FindStringSubmatch(seq[i].val); m != nil {
+					nameLocal = m[1]
+				} else if seq[i].val == "run([]byte(("+msgNameExpr+" + \" \")))" {
+					nameDirect = true
+				} else {
+					probs = append(probs, fmt.Sprintf("write #%d hashes %s, expected the message name followed by a space", i+1, seq[i].val))
+				}
+				continue
+			}
 			if seq[i].val != w.val {
 				probs = append(probs, fmt.Sprintf("write #%d hashes %s, expected %s", i+1, seq[i].val, w.val))
 			}
@@ -460,9 +474,18 @@ func ruleCRCExtraPreimage(c *Ctx, rule string) {
 		probs = append(probs, "hash object is "+ex(h))
 	}
 	fold := false
+	const foldExpr = "byte((((x25.X25).Sum16(x25.New()) & 255) ^ ((x25.X25).Sum16(x25.New()) >> 8)))"
 	for _, ret := range retInstrs(crcFn) {
-		if len(ret.Results) == 1 && ex(ret.Results[0]) == "byte((((x25.X25).Sum16(x25.New()) & 255) ^ ((x25.X25).Sum16(x25.New()) >> 8)))" {
+		if len(ret.Results) == 1 && ex(ret.Results[0]) == foldExpr {
 			fold = true
+		}
+	}
+	if crcFn == ini {
+		// computed in line: the folded value is what is stored into rw.crcExtra
+		for _, in := range allInstrs(ini) {
+			if st, ok := in.(*ssa.Store); ok && ex(st.Addr) == "&recv.crcExtra" {
+				fold = ex(st.Val) == foldExpr
+			}
 		}
 	}
 	if !fold {
@@ -497,10 +520,10 @@ func ruleCRCExtraPreimage(c *Ctx, rule string) {
 				"CRC_EXTRA of messages with a scalar char differs from the spec (test.xml TEST_TYPES: 17 instead of the published 103)")
 	}
 	// message name and field name derivations
-	okName := false
+	okName := nameDirect // the derivation was matched as part of write #1
 	for _, in := range allInstrs(ini) {
-		if st, ok := in.(*ssa.Store); ok && ex(st.Addr) == "&local:msgName" {
-			okName = ex(st.Val) == "message.msgGoToDef((reflect.Type).Name(recv.elemType)[7:])"
+		if st, ok := in.(*ssa.Store); ok && nameLocal != "" && ex(st.Addr) == "&local:"+nameLocal {
+			okName = ex(st.Val) == msgNameExpr
 		}
 	}
 	r.Check(okName, rule, "Initialize message name", c.Pos(ini.Pos()), "msgGoToDef(type name minus the 7-letter 'Message' prefix)", "the message name hashed into CRC_EXTRA is not msgGoToDef(elemType.Name()[len(\"Message\"):])")
@@ -508,7 +531,13 @@ func ruleCRCExtraPreimage(c *Ctx, rule string) {
 	for _, fn := range c.AllFns {
 		if fn.Parent() == ini {
 			rs := returnSet(fn, 0)
-			if len(rs) == 2 && rs["message.fieldGoToDef(local:field.Name)"] {
+			hasConv := false
+			for k := range rs {
+				if reFieldConv.MatchString(k) {
+					hasConv = true
+				}
+			}
+			if len(rs) == 2 && hasConv {
 				for k := range rs {
 					if strings.Contains(k, "\"mavname\"") {
 						okField = true
@@ -533,6 +562,9 @@ func ruleCRCExtraPreimage(c *Ctx, rule string) {
 		r.Check(got == want, rule, cv.fn, c.Pos(fn.Pos()), "CamelCase → snake_case, first underscore dropped, "+cv.fold, cv.fn+" computes "+got)
 	}
 }
+
+var reFieldConv = regexp.MustCompile(`^message\.fieldGoToDef\(local:\w+\.Name\)$`)
+var reLocalName = regexp.MustCompile(`^run\(\[\]byte\(\(local:(\w+) \+ " "\)\)\)$`)
 
 // R3.5
 func ruleSizeArithmetic(c *Ctx, rule string) {
@@ -584,7 +616,7 @@ func ruleSizeArithmetic(c *Ctx, rule string) {
 				n++
 				// int -> byte truncation: the wide value must have been bounded, directly or because it
 				// accumulates a subset of the addends of a bounded accumulator starting from the same 0
-				bounded := boundOn(x.X, x.Block())
+				bounded := boundOn(x.X, x.Block()) || maxBits(x.X) <= 8
 				if !bounded {
 					if mine, ok := accumulatorAddends(x.X); ok {
 						for _, in2 := range allInstrs(ini) {
@@ -723,4 +755,51 @@ func accumulatorAddends(v ssa.Value) (map[ssa.Value]bool, bool) {
 		return nil, false
 	}
 	return adds, len(adds) > 0
+}
+
+// maxBits: an upper bound on the number of significant bits of an unsigned integer expression, from masks and
+// shifts alone (x & K, x >> k, x ^ y, x | y, widening conversions); the operand's width otherwise.
+func maxBits(v ssa.Value) int {
+	w := intWidth(v.Type()) * 8
+	if w == 0 {
+		return 64
+	}
+	if b, ok := v.Type().Underlying().(*types.Basic); !ok || b.Info()&types.IsUnsigned == 0 {
+		return w
+	}
+	if k, ok := constInt(v); ok && k >= 0 {
+		n := 0
+		for ; k > 0; k >>= 1 {
+			n++
+		}
+		return n
+	}
+	min := func(a, b int) int {
+		if a < b {
+			return a
+		}
+		return b
+	}
+	max := func(a, b int) int {
+		if a > b {
+			return a
+		}
+		return b
+	}
+	switch x := v.(type) {
+	case *ssa.BinOp:
+		switch x.Op {
+		case token.AND:
+			return min(w, min(maxBits(x.X), maxBits(x.Y)))
+		case token.OR, token.XOR:
+			return min(w, max(maxBits(x.X), maxBits(x.Y)))
+		case token.SHR:
+			if k, ok := constInt(x.Y); ok && k >= 0 {
+				return max(0, min(w, maxBits(x.X))-int(k))
+			}
+		}
+	case *ssa.Convert:
+		return min(w, maxBits(x.X))
+	}
+	return w
 }
